@@ -558,6 +558,15 @@ func main() {
 			runScriptHistory(&sh, out)
 			continue
 		}
+		if strings.Contains(line, `"mode": "mod"`) || strings.Contains(line, `"mode":"mod"`) {
+			var mh modHistory
+			if err := json.Unmarshal([]byte(line), &mh); err != nil {
+				fmt.Fprintf(out, "?\tBADJSON %v\n", err)
+				continue
+			}
+			runModHistory(&mh, out)
+			continue
+		}
 		var h history
 		if err := json.Unmarshal([]byte(line), &h); err != nil {
 			fmt.Fprintf(out, "?\tBADJSON %v\n", err)
